@@ -24,6 +24,9 @@ struct HeaderInfo {
 	size_t hdrLen = 0; // bytes consumed
 };
 HeaderInfo parseHeader(const std::string& bytes);
+// same-length rename of block types inside the header's type table (first character -> 'Q' / 'Z'): the library then holds
+// the blocks of these types as opaque ones. No library code involved. False if a name is not found in the header.
+bool relabelTypes(std::string& bytes, const std::vector<std::string>& types);
 
 // canonical names of the versions the harness creates models in
 nifly::NiVersion versionByName(const std::string& n);
